@@ -366,6 +366,11 @@ def underlyingAlgo (algo : String) : String :=
 def hostSigGateFor (sig : Bytes) (algo : String) (cryptoValid : Bool) : Bool :=
   hostSigGate sig (underlyingAlgo algo).toUTF8.toList cryptoValid
 
+/-- a connection with several key exchanges (`handshakeTransport.client` runs for the first exchange and for every
+    re-key): each exchange is gated by its own signature check over its own H and by the host key callback;
+    the connection survives iff every exchange passed -/
+def sessionAccepts (exchanges : List (Bool × Bool)) : Bool := exchanges.all (fun x => x.1 && x.2)
+
 /-! ## the fixed groups -/
 
 def oakley2Hex : String := "FFFFFFFFFFFFFFFFC90FDAA22168C234C4C6628B80DC1CD129024E088A67CC74020BBEA63B139B22514A08798E3404DDEF9519B3CD3A431B302B0A6DF25F14374FE1356D6D51C245E485B576625E7EC6F44C42E9A637ED6B0BFF5CB6F406B7EDEE386BFB5A899FA5AE9F24117C4B1FE649286651ECE65381FFFFFFFFFFFFFFFF"
